@@ -9,6 +9,6 @@ flock 8
 SCRATCH=/dev/shm/verif-instr-$$
 trap 'rm -rf "$SCRATCH"' EXIT
 (cd "$VERIF_DIR/instr" && go build -o "$VERIF_DIR/bin/instr" .)
-"$VERIF_DIR/bin/instr" -repo /repo -rt "$VERIF_DIR/rt" -out "$SCRATCH" ./pkg/datastore/types ./pkg/datastore ./pkg/server >&2
+"$VERIF_DIR/bin/instr" -track github.com/sdcio/data-server/pkg/datastore/types -repo /repo -rt "$VERIF_DIR/rt" -out "$SCRATCH" ./pkg/datastore/types ./pkg/datastore ./pkg/server >&2
 cd "$VERIF_DIR/harness"
 go build -tags "verif verifsched" -overlay "$SCRATCH/overlay.json" -o "$VERIF_DIR/bin/vcheck-i" ./cmd/vcheck
